@@ -1,9 +1,10 @@
 (* stdin: one access path per line, prefix tokens, every node tagged with the pointer
-   kind of its type (n = not a pointer, i = `^`, m = `^mut`):
+   kinds of its type, outermost level first (n = not a pointer, i = `^`, m = `^mut`, mi = `^mut ^`, ...):
      L:k id mu 0 | L:k id mu 1 <path> | A:k i | G:k g | F:k <path> f | X:k <path> | D:k <path>
      | P:k <path> | U:k <path> | B:k <path> | R:k m <path> | C:k id | K:k id | T:k | O:k id
    stdout: "<assign_accepted> <ref_mut_accepted> <place> <suspect _ false> <typed> <mutability>
-            <assign_accepted fixed> <ref_mut_accepted fixed>"   (fixed = through_pointer repair) *)
+            <assign fix1> <ref_mut fix1> <assign fix2> <ref_mut fix2> <multilevel>"
+   (no prefix = code before 1af504c, fix1 = 1af504c, fix2 = every auto-deref level checked) *)
 open Conv
 open Mutability
 
@@ -11,12 +12,16 @@ let toks = ref [||]
 let pos = ref 0
 let next () = let t = !toks.(!pos) in incr pos; t
 let num () = n_of_int (int_of_string (next ()))
-let table : (path * bool option) list ref = ref []
+let table : (path * (bool option * bool list)) list ref = ref []
 let conflict = ref false
 
 let rec path () : path =
   let t = next () in
-  let c = t.[0] and k = (match t.[2] with 'n' -> None | 'i' -> Some false | 'm' -> Some true | _ -> failwith "kind") in
+  let kind ch = (match ch with 'i' -> false | 'm' -> true | _ -> failwith "kind") in
+  let ks = String.sub t 2 (String.length t - 2) in
+  let c = t.[0] and k =
+    (if ks = "n" then (None, [])
+     else (Some (kind ks.[0]), List.init (String.length ks - 1) (fun i -> kind ks.[i + 1]))) in
   let p = match c with
     | 'L' -> let id = num () in let mu = next () = "1" in
       if next () = "1" then (let v = path () in PLocal (id, mu, Some v)) else PLocal (id, mu, None)
@@ -53,11 +58,14 @@ let () =
     pos := 0; table := []; conflict := false;
     let p = path () in
     let tb = !table in
-    let pk q = match List.assoc_opt q tb with Some k -> k | None -> None in
+    let pk q = match List.assoc_opt q tb with Some (k, _) -> k | None -> None in
+    let deep q = match List.assoc_opt q tb with Some (_, d) -> d | None -> [] in
     if !conflict then print_endline "ORACLE-CONFLICT" else
     print_endline (String.concat " " [
-      b2s (assign_accepted false pk p); b2s (ref_mut_accepted false pk p);
-      (match MutSpec.place pk p with MutSpec.Mut -> "Mut" | MutSpec.Immut -> "Immut" | MutSpec.Temp -> "Temp");
-      b2s (MutSpec.suspect pk p false); b2s (MutSpec.typed pk p);
-      mut_str (get_mutability false pk p true false);
-      b2s (assign_accepted true pk p); b2s (ref_mut_accepted true pk p) ]))
+      b2s (assign_accepted false false pk deep p); b2s (ref_mut_accepted false false pk deep p);
+      (match MutSpec.place pk deep p with MutSpec.Mut -> "Mut" | MutSpec.Immut -> "Immut" | MutSpec.Temp -> "Temp");
+      b2s (MutSpec.suspect pk deep p false); b2s (MutSpec.typed pk p);
+      mut_str (get_mutability true false pk deep p true false);
+      b2s (assign_accepted true false pk deep p); b2s (ref_mut_accepted true false pk deep p);
+      b2s (assign_accepted true true pk deep p); b2s (ref_mut_accepted true true pk deep p);
+      b2s (MutSpec.multilevel pk deep p) ]))
